@@ -30,6 +30,8 @@ pub fn scenarios() -> Vec<Scenario> {
         scn!(scenario_special_encodings_rejected, 2),
         scn!(scenario_round_trips, 2),
         scn!(scenario_header_version_and_ciphersuite, 2),
+        scn!(scenario_json_members_required, 1),
+        scn!(scenario_boundary_values_round_trip, 2),
     ]
 }
 
@@ -444,8 +446,13 @@ pub fn scenario_codec_sweep_primitives<C: Suite>(rng: &mut TestRng, _p: &Params,
         codec: scalar_codec::<C>(),
     };
     sweep(rng, &s, &[])?;
-    // small scalars / small multiples of the generator have sparse encodings
-    let small = {
+    // small scalars / small multiples of the generator have sparse encodings; the edges of the scalar range
+    // (order-1, 2^top, 2^top +- 1, ...) sit next to the encodings that must be refused
+    let small = if rng.chance(50) {
+        let (name, x) = pick_boundary::<C>(rng, false);
+        notes.insert("second_scalar".into(), json!(name));
+        x
+    } else {
         let mut acc = zero::<C>();
         for _ in 0..rng.range(1, 40) {
             acc = acc + one::<C>();
@@ -1104,4 +1111,274 @@ pub fn scenario_header_version_and_ciphersuite<C: Suite>(rng: &mut TestRng, p: &
         }
     }
     Ok(())
+}
+
+// ------------------------------------------------------------------------------------------------
+// JSON documents with a member missing
+
+/// every STRUCT object of a JSON document as a path: the document itself, every object that has a `header` member and every
+/// `header` object.  (Objects whose keys are identifiers - verifying shares, signing commitments - are maps: dropping one of
+/// their entries gives another valid value; their values are searched for structs.)
+fn struct_paths(v: &Value, path: &mut Vec<String>, top: bool, under_header: bool, out: &mut Vec<Vec<String>>) {
+    match v {
+        Value::Object(m) => {
+            if top || under_header || m.contains_key("header") {
+                out.push(path.clone());
+            }
+            for (k, x) in m {
+                path.push(k.clone());
+                struct_paths(x, path, false, k == "header", out);
+                path.pop();
+            }
+        }
+        Value::Array(a) => {
+            for (i, x) in a.iter().enumerate() {
+                path.push(i.to_string());
+                struct_paths(x, path, false, false, out);
+                path.pop();
+            }
+        }
+        _ => {}
+    }
+}
+
+fn remove_at(v: &mut Value, path: &[String], member: &str) -> bool {
+    let mut cur = v;
+    for k in path {
+        let next = match cur {
+            Value::Object(m) => m.get_mut(k.as_str()),
+            Value::Array(a) => k.parse::<usize>().ok().and_then(|i| a.get_mut(i)),
+            _ => None,
+        };
+        cur = match next {
+            Some(n) => n,
+            None => return false,
+        };
+    }
+    match cur {
+        Value::Object(m) => m.remove(member).is_some(),
+        _ => false,
+    }
+}
+
+/// All documents obtained from the JSON form of `v` by deleting ONE member of one struct object, as
+/// (dotted path of the deleted member, document).  Empty if the JSON form is not an object.
+pub fn json_with_one_member_deleted<T: Serialize>(v: &T) -> Vec<(String, Value)> {
+    let j = match serde_json::to_value(v) {
+        Ok(j @ Value::Object(_)) => j,
+        _ => return Vec::new(),
+    };
+    let mut paths = Vec::new();
+    struct_paths(&j, &mut Vec::new(), true, false, &mut paths);
+    let mut out = Vec::new();
+    for path in paths {
+        let members: Vec<String> = {
+            let mut cur = &j;
+            for k in &path {
+                cur = match cur {
+                    Value::Object(m) => m.get(k.as_str()).unwrap_or(&Value::Null),
+                    Value::Array(a) => k.parse::<usize>().ok().and_then(|i| a.get(i)).unwrap_or(&Value::Null),
+                    _ => &Value::Null,
+                };
+            }
+            cur.as_object().map(|m| m.keys().cloned().collect()).unwrap_or_default()
+        };
+        for member in members {
+            let mut alt = j.clone();
+            if remove_at(&mut alt, &path, &member) {
+                let mut dotted = path.clone();
+                dotted.push(member);
+                out.push((dotted.join("."), alt));
+            }
+        }
+    }
+    out
+}
+
+/// A stored / transmitted JSON document that lacks a member is REFUSED by every JSON entry point (`from_value`, `from_str`),
+/// except for the members documented as optional (`optional`: dotted paths).
+pub fn json_members_required<T: Serialize + DeserializeOwned>(name: &str, v: &T, optional: &[&str]) -> Verdict {
+    let j = need(serde_json::to_value(v), "to_value")?;
+    must(serde_json::from_value::<T>(j), &format!("{name}: serde_json::from_value of its own JSON value"))?;
+    for (member, doc) in json_with_one_member_deleted(v) {
+        if optional.contains(&member.as_str()) {
+            continue;
+        }
+        let text = doc.to_string();
+        let by_value = serde_json::from_value::<T>(doc).is_ok();
+        let by_str = serde_json::from_str::<T>(&text).is_ok();
+        check(
+            !by_value && !by_str,
+            &format!("{name}: a JSON document without its `{member}` member is refused (a missing member is not silently replaced by a default)"),
+            "Err(..) from from_value and from_str",
+            format!("from_value accepts: {by_value}, from_str accepts: {by_str}; document {}", if text.len() > 300 { &text[..300] } else { &text }),
+        )?;
+    }
+    Ok(())
+}
+
+/// Every JSON-encodable state / wire type: each member of the document (top level, headers, nested packages) is required.
+/// The one documented exception is `PublicKeyPackage.min_signers` (absent in packages written before 3.0.0).
+pub fn scenario_json_members_required<C: Suite>(rng: &mut TestRng, p: &Params, notes: &mut Notes) -> Verdict {
+    let s = samples::<C>(rng, p)?;
+    let mut n = 0;
+    for kp in s.keys.key_packages.values() {
+        json_members_required("KeyPackage", kp, &[])?;
+        n += 1;
+    }
+    json_members_required("PublicKeyPackage", &s.keys.pubkeys, &["min_signers"])?;
+    let loaded_legacy: PublicKeyPackage<C> = {
+        let mut j = need(serde_json::to_value(&s.keys.pubkeys), "to_value")?;
+        if let Some(m) = j.as_object_mut() {
+            m.remove("min_signers");
+        }
+        must(serde_json::from_value(j), "PublicKeyPackage: a JSON document without `min_signers` (pre-3.0.0 form) is accepted")?
+    };
+    check(
+        loaded_legacy.min_signers().is_none() && loaded_legacy.verifying_key() == s.keys.pubkeys.verifying_key(),
+        "PublicKeyPackage loaded from the pre-3.0.0 form records no threshold (it does not invent one)",
+        "min_signers None",
+        format!("{:?}", loaded_legacy.min_signers()),
+    )?;
+    if let Some(shares) = &s.keys.secret_shares {
+        for sh in shares.values() {
+            json_members_required("SecretShare", sh, &[])?;
+        }
+    }
+    json_members_required("SigningPackage", &s.session.package, &[])?;
+    for x in s.session.nonces.values() {
+        json_members_required("SigningNonces", x, &[])?;
+    }
+    for x in s.session.commitments.values() {
+        json_members_required("SigningCommitments", x, &[])?;
+    }
+    for x in s.session.shares.values() {
+        json_members_required("SignatureShare", x, &[])?;
+    }
+    for x in s.dkg.r1_pkg.values() {
+        json_members_required("dkg::round1::Package", x, &[])?;
+    }
+    for x in s.dkg.r1_secret.values() {
+        json_members_required("dkg::round1::SecretPackage", x, &[])?;
+    }
+    for x in s.dkg.r2_secret.values() {
+        json_members_required("dkg::round2::SecretPackage", x, &[])?;
+    }
+    for out in s.dkg.r2_out.values() {
+        for x in out.values() {
+            json_members_required("dkg::round2::Package", x, &[])?;
+        }
+    }
+    // the distributed refresh uses the same types with a shorter commitment
+    let id = match s.keys.ids.first() {
+        Some(i) => *i,
+        None => return skip("internal"),
+    };
+    let (rs, rp) = need(keys::refresh::refresh_dkg_part1::<C, _>(id, 3, 2, &mut *rng), "refresh_dkg_part1")?;
+    json_members_required("refresh round-one SecretPackage", &rs, &[])?;
+    json_members_required("refresh round-one Package", &rp, &[])?;
+    notes.insert("key_packages".into(), json!(n));
+    Ok(())
+}
+
+// ------------------------------------------------------------------------------------------------
+// edge values of the scalar range in every type that carries a scalar
+
+/// "Decoding an encoding returns an equal value" for values at the edges of the scalar range (`common::boundary_scalars`: 0, 1, 2,
+/// order-1, order-2, 2^top, 2^top +- 1, ...), which random sampling never produces: the ciphersuite's `Field` codec, every bare
+/// scalar type, identifiers, and the packages that carry such a scalar as identifier, polynomial coefficient, signing share,
+/// secret share, nonce or signature response - binary and JSON.  Zero is used where the property does not exclude it
+/// (not as identifier or signing key; not as signing share or nonce, whose public image would be the identity).
+pub fn scenario_boundary_values_round_trip<C: Suite>(rng: &mut TestRng, p: &Params, notes: &mut Notes) -> Verdict {
+    let all = boundary_scalars::<C>();
+    let sc = scalar_codec::<C>();
+    // (1) the Field codec itself and the bare scalar types, for EVERY boundary scalar
+    for (name, x) in &all {
+        let enc = scalar_bytes::<C>(x);
+        match sc(&enc) {
+            Decoded::Accepted(re) if re == enc => {}
+            Decoded::Accepted(re) => return fail(&format!("Field::deserialize of the encoding of the scalar {name} re-encodes to it"), hex(&enc), hex(&re)),
+            _ => return fail(&format!("Field::deserialize accepts the encoding Field::serialize produces for the scalar {name}"), "Ok(..)", format!("Err for {}", hex(&enc))),
+        }
+        let back = scalar_from_bytes::<C>(&enc);
+        check(back == Some(*x), &format!("Field: decoding the encoding of the scalar {name} returns an equal value"), hex(&enc), format!("{:?}", back.map(|b| hex(&scalar_bytes::<C>(&b)))))?;
+        let nonzero = *x != zero::<C>();
+        let bare = |ty: &str, r: Result<Vec<u8>, FErr<C>>| -> Verdict {
+            let re = must(r, &format!("{ty}::deserialize of the encoding of the scalar {name}"))?;
+            check(re == enc, &format!("{ty}: decoding the encoding of the scalar {name} and re-encoding reproduces it"), hex(&enc), hex(&re))
+        };
+        bare("SignatureShare", fc::round2::SignatureShare::<C>::deserialize(&enc).map(|v| v.serialize()))?;
+        bare("repairable::Delta", Delta::<C>::deserialize(&enc).map(|v| v.serialize()))?;
+        bare("repairable::Sigma", Sigma::<C>::deserialize(&enc).map(|v| v.serialize()))?;
+        bare("Randomizer", frost_rerandomized::Randomizer::<C>::deserialize(&enc).map(|v| v.serialize()))?;
+        if nonzero {
+            bare("SigningShare", keys::SigningShare::<C>::deserialize(&enc).map(|v| v.serialize()))?;
+            bare("round1::Nonce", fc::round1::Nonce::<C>::deserialize(&enc).map(|v| v.serialize()))?;
+            bare("SigningKey", fc::SigningKey::<C>::deserialize(&enc).map(|v| v.serialize()))?;
+            bare("Identifier", Id::<C>::deserialize(&enc).map(|v| v.serialize()))?;
+            let id = need(Id::<C>::new(*x), "Identifier::new")?;
+            check(Id::<C>::deserialize(&id.serialize()).ok() == Some(id), &format!("Identifier: decoding the encoding of the identifier {name} returns an equal value"), id_hex::<C>(&id), "Err or another value")?;
+            let j = must(serde_json::to_string(&id), "Identifier json")?;
+            let back: Id<C> = must(serde_json::from_str(&j), &format!("Identifier: serde_json::from_str of the JSON form of the identifier {name}"))?;
+            check(back == id, &format!("Identifier: JSON decoding returns an equal value (identifier {name})"), id_hex::<C>(&id), id_hex::<C>(&back))?;
+        }
+    }
+    // (2) composite types carrying boundary scalars; a few per case
+    let pick = |rng: &mut TestRng| pick_boundary::<C>(rng, true);
+    let (id_name, id_s) = pick(rng);
+    let id = need(Id::<C>::new(id_s), "Identifier::new")?;
+    let (share_name, share_s) = pick(rng);
+    let (n1_name, n1) = pick(rng);
+    let (n2_name, n2) = pick(rng);
+    let (z_name, z) = pick_boundary::<C>(rng, false);
+    let t = rng.range(2, 4);
+    let coeff_names: Vec<(&str, Sc<C>)> = (0..t).map(|_| pick_boundary::<C>(rng, false)).collect();
+    notes.insert(
+        "boundary_values".into(),
+        json!({"identifier": id_name, "signing_share": share_name, "hiding_nonce": n1_name, "binding_nonce": n2_name, "signature_response": z_name,
+               "coefficients": coeff_names.iter().map(|c| c.0).collect::<Vec<_>>()}),
+    );
+    let share = keys::SigningShare::<C>::new(share_s);
+    let vshare = keys::VerifyingShare::<C>::from(share);
+    let vk = fc::VerifyingKey::<C>::from(&fc::SigningKey::<C>::new(rng));
+    let kp = KeyPackage::<C>::new(id, share, vshare, vk, t as u16);
+    round_trip::<_, C>(&format!("KeyPackage (identifier {id_name}, signing share {share_name})"), &kp, |x| x.serialize(), |b| KeyPackage::<C>::deserialize(b), true)?;
+    let nonces = fc::round1::SigningNonces::<C>::from_nonces(fc::round1::Nonce::<C>::from_scalar(n1), fc::round1::Nonce::<C>::from_scalar(n2));
+    round_trip::<_, C>(&format!("SigningNonces (hiding {n1_name}, binding {n2_name})"), &nonces, |x| x.serialize(), |b| fc::round1::SigningNonces::<C>::deserialize(b), true)?;
+    let mut cm = BTreeMap::new();
+    cm.insert(id, *nonces.commitments());
+    let sp = fc::SigningPackage::<C>::new(cm, &p.message);
+    round_trip::<_, C>(&format!("SigningPackage (signer {id_name})"), &sp, |x| x.serialize(), |b| fc::SigningPackage::<C>::deserialize(b), true)?;
+    // a signature whose response is a boundary scalar (R = any valid point)
+    let sig = fc::Signature::<C>::new(base_mul::<C>(&random_nonzero_scalar::<C>(rng)), z);
+    round_trip::<_, C>(&format!("Signature (response {z_name})"), &sig, |x| x.serialize(), |b| fc::Signature::<C>::deserialize(b), !C::IS_TAPROOT)?;
+    // key generation state: polynomial with boundary coefficients, its commitment, the shares it gives
+    let coeffs: Vec<Sc<C>> = coeff_names.iter().map(|c| c.1).collect();
+    let nonzero_commitment = coeffs.iter().all(|c| *c != zero::<C>());
+    if nonzero_commitment {
+        let commitment = VerifiableSecretSharingCommitment::<C>::new(coeffs.iter().map(|c| keys::CoefficientCommitment::<C>::new(base_mul::<C>(c))).collect());
+        let s1 = dkg::round1::SecretPackage::<C>::new(id, coeffs.clone(), commitment.clone(), t as u16, t as u16 + 1);
+        round_trip::<_, C>(
+            &format!("dkg::round1::SecretPackage (identifier {id_name}, coefficients {:?})", coeff_names.iter().map(|c| c.0).collect::<Vec<_>>()),
+            &s1,
+            |x| x.serialize(),
+            |b| dkg::round1::SecretPackage::<C>::deserialize(b),
+            true,
+        )?;
+        let s2 = dkg::round2::SecretPackage::<C>::new(id, commitment.clone(), share_s, t as u16, t as u16 + 1);
+        round_trip::<_, C>(&format!("dkg::round2::SecretPackage (identifier {id_name}, secret share {share_name})"), &s2, |x| x.serialize(), |b| dkg::round2::SecretPackage::<C>::deserialize(b), true)?;
+        let sh = SecretShare::<C>::new(id, share, commitment);
+        round_trip::<_, C>(&format!("SecretShare (identifier {id_name}, signing share {share_name})"), &sh, |x| x.serialize(), |b| SecretShare::<C>::deserialize(b), true)?;
+    }
+    let r2p = dkg::round2::Package::<C>::new(share);
+    round_trip::<_, C>(&format!("dkg::round2::Package (signing share {share_name})"), &r2p, |x| x.serialize(), |b| dkg::round2::Package::<C>::deserialize(b), true)?;
+    // a public key package listing boundary identifiers
+    let mut vs = BTreeMap::new();
+    vs.insert(id, vshare);
+    for _ in 0..2 {
+        let (_, s) = pick(rng);
+        vs.insert(need(Id::<C>::new(s), "Identifier::new")?, vshare);
+    }
+    let pkp = PublicKeyPackage::<C>::new(vs, vk, Some(t as u16));
+    round_trip::<_, C>("PublicKeyPackage (boundary identifiers)", &pkp, |x| x.serialize(), |b| PublicKeyPackage::<C>::deserialize(b), true)
 }
